@@ -8,7 +8,9 @@
  * iteration by every mechanism (mode B prints one list when all mechanisms agree and
  * ITERDIFF/... otherwise), including both definitions of json_object_object_foreach
  * (GNU form here, portable form in drv_lh_ansi.c); delete-current-while-iterating exists
- * for both as well (ops x and y). */
+ * for both as well (ops x and y).  In mode B every key handed to the library is a copy of
+ * the key text at a scripted byte offset 0..7 (suffix @off; lookups rotate through all offsets);
+ * line H checks that the string hash itself does not depend on the key's address. */
 #include "common.h"
 #include <unistd.h>
 #include "json.h"
@@ -203,6 +205,45 @@ static int key_index(const char *k)
 		if (strcmp(keystr[i], k) == 0) return i;
 	return -1;
 }
+/* A key is its bytes, never its address: every key handed to the library is a fresh copy of the
+ * key text at a scripted byte offset 0..7 from an 8-aligned base, in an exact-size block (ASan
+ * sees any read before or after), preceded by junk bytes; after the call the copy is overwritten
+ * and freed (a key the library was to keep must have been copied).  Keys passed with
+ * JSON_C_OBJECT_ADD_CONSTANT_KEY stay alive until the end of the case. */
+static void *pers[4 * MAXK];
+static int npers;
+static int stepno;
+static char *key_copy(int k, int off, void **base)
+{
+	size_t len = strlen(keystr[k]);
+	unsigned char *b = NULL;
+	int i;
+	off &= 7;
+	if (posix_memalign((void **)&b, 8, (size_t)off + len + 1) != 0 || !b) { *base = NULL; return keystr[k]; }
+	for (i = 0; i < off; i++) b[i] = (unsigned char)(0x5b + 37 * i + (int)len);
+	memcpy(b + off, keystr[k], len + 1);
+	*base = b;
+	return (char *)b + off;
+}
+static void key_done(int k, int off, void *base)
+{
+	if (!base) return;
+	memset((char *)base + (off & 7), 0xee, strlen(keystr[k]));     /* keeps the terminator */
+	(free)(base);
+}
+static void pers_free(void)
+{
+	while (npers > 0) (free)(pers[--npers]);
+}
+/* "@<off>" suffix of an operation token: cut it off, return the offset (default 0) */
+static int cut_off(char *tok)
+{
+	char *at = strchr(tok, '@');
+	if (!at) return 0;
+	*at = 0;
+	return atoi(at + 1) & 7;
+}
+
 static unsigned long b_hash(const void *k)
 {
 	int i = key_index((const char *)k);
@@ -279,12 +320,17 @@ static void obs_b(struct json_object *obj, const char *ret)
 	struct vis_arg va;
 	char tmp[64];
 	int i, guard, same = 1;
+	stepno++;
 	for (i = 0; i < nkeys; i++) {
 		struct json_object *v = NULL;
-		if (json_object_object_get_ex(obj, keystr[i], &v)) {
+		void *base;
+		int off = (stepno + i) & 7;            /* every key meets every offset as the steps go by */
+		char *kp = key_copy(i, off, &base);
+		if (json_object_object_get_ex(obj, kp, &v)) {
 			if (v) snprintf(tmp, sizeof tmp, "%d", json_object_get_int(v));
 			else strcpy(tmp, "n");
 		} else strcpy(tmp, "-");
+		key_done(i, off, base);
 		sb_item(&g, tmp);
 	}
 	guard = 0;
@@ -380,6 +426,7 @@ static void mode_b(char *rest)
 		p = comma ? comma + 1 : NULL;
 	}
 	xa_reset();
+	stepno = 0;
 	json_global_set_string_hash(hsel == 1 ? JSON_C_STR_HASH_PERLLIKE : JSON_C_STR_HASH_DFLT);
 	obj = pair[0] = new_obj(hsel, size);
 	if (!obj) { printf("NOMEM"); goto done; }
@@ -394,25 +441,69 @@ static void mode_b(char *rest)
 			int k, flags, fail1;
 			unsigned opts = 0;
 			struct json_object *val;
+			int off = cut_off(tok);
+			void *base;
+			char *kp;
 			if (!c2) { printf("BADOP"); goto out; }
 			k = atoi(tok + 1);
 			flags = atoi(c2 + 1);
 			fail1 = tok[strlen(tok) - 1] == '!';
+			kp = key_copy(k, off, &base);
 			val = (c1[1] == 'n') ? NULL : json_object_new_int(atoi(c1 + 1));
 			if (flags & 1) opts |= JSON_C_OBJECT_ADD_KEY_IS_NEW;
 			if (flags & 2) opts |= JSON_C_OBJECT_ADD_CONSTANT_KEY;
 			xa_limit = limit * sizeof(struct lh_entry);
 			if (fail1) xa_fail_at = xa_count;
-			if (flags == 0) ret = json_object_object_add(obj, keystr[k], val);
-			else ret = json_object_object_add_ex(obj, keystr[k], val, opts);
+			if (flags == 0) ret = json_object_object_add(obj, kp, val);
+			else ret = json_object_object_add_ex(obj, kp, val, opts);
 			xa_fail_at = -1;
 			xa_limit = 0;
 			if (ret != 0 && val) json_object_put(val);
+			/* the table may now point at a constant key: it must outlive the object */
+			if ((flags & 2) && base && npers < 4 * MAXK) pers[npers++] = base;
+			else key_done(k, off, base);
 			break; }
-		case 'd':
-			json_object_object_del(obj, keystr[atoi(tok + 1)]);
+		case 'd': {
+			int off = cut_off(tok), k = atoi(tok + 1);
+			void *base;
+			char *kp = key_copy(k, off, &base);
+			json_object_object_del(obj, kp);
+			key_done(k, off, base);
 			ret = 0;
-			break;
+			break; }
+		case 'g': {
+			/* one key, one offset, every lookup entry point */
+			int off = cut_off(tok), k = atoi(tok + 1), j, same = 1;
+			struct lh_table *t = json_object_get_object(obj);
+			struct lh_entry *e;
+			struct json_object *v;
+			void *base, *vv;
+			char r[5][24];
+			char *kp = key_copy(k, off, &base);
+			v = NULL;
+			if (json_object_object_get_ex(obj, kp, &v)) { if (v) snprintf(r[0], 24, "%d", json_object_get_int(v)); else strcpy(r[0], "n"); }
+			else strcpy(r[0], "-");
+			/* json_object_object_get cannot tell an absent key from a NULL value: compare where it can */
+			v = json_object_object_get(obj, kp);
+			if (v) snprintf(r[1], 24, "%d", json_object_get_int(v)); else strcpy(r[1], r[0][0] == 'n' ? "n" : "-");
+			vv = NULL;
+			if (lh_table_lookup_ex(t, kp, &vv)) { if (vv) snprintf(r[2], 24, "%d", json_object_get_int((struct json_object *)vv)); else strcpy(r[2], "n"); }
+			else strcpy(r[2], "-");
+			e = lh_table_lookup_entry(t, kp);
+			if (e) { if (lh_entry_v(e)) snprintf(r[3], 24, "%d", json_object_get_int((struct json_object *)lh_entry_v(e))); else strcpy(r[3], "n"); }
+			else strcpy(r[3], "-");
+			e = lh_table_lookup_entry_w_hash(t, kp, lh_get_hash(t, kp));
+			if (e) { if (lh_entry_v(e)) snprintf(r[4], 24, "%d", json_object_get_int((struct json_object *)lh_entry_v(e))); else strcpy(r[4], "n"); }
+			else strcpy(r[4], "-");
+			key_done(k, off, base);
+			for (j = 1; j < 5; j++) if (strcmp(r[0], r[j]) != 0) same = 0;
+			if (same) obs_b(obj, r[0]);
+			else {
+				char big[160];
+				snprintf(big, sizeof big, "GETDIFF/%s/%s/%s/%s/%s", r[0], r[1], r[2], r[3], r[4]);
+				obs_b(obj, big);
+			}
+			continue; }
 		case 'h':
 			/* the global selection changes while the objects are alive */
 			ret = json_global_set_string_hash(atoi(tok + 1));
@@ -456,6 +547,7 @@ static void mode_b(char *rest)
 out:
 	if (pair[0]) json_object_put(pair[0]);
 	if (pair[1]) json_object_put(pair[1]);
+	pers_free();
 done:
 	for (i = 0; i < nkeys; i++) { (free)(keystr[i]); keystr[i] = NULL; }
 	json_global_set_string_hash(JSON_C_STR_HASH_DFLT);
@@ -477,12 +569,65 @@ static void mode_l(char *rest)
 	}
 }
 
+/* the string hash of a table is a function of the key bytes: the same text at the 8 byte offsets
+ * of an 8-aligned base (and in a malloc'ed duplicate, as strdup makes for the stored key) hashes to
+ * one value, through t->hash_fn and through lh_get_hash.  Hash values are not printed. */
+static void mode_hh(char *rest)
+{
+	char *sp = strchr(rest, ' '), *p;
+	struct lh_table *t;
+	int hsel, first = 1;
+	if (!sp) { printf("BADLINE"); return; }
+	*sp = 0;
+	hsel = atoi(rest);
+	json_global_set_string_hash(hsel == 1 ? JSON_C_STR_HASH_PERLLIKE : JSON_C_STR_HASH_DFLT);
+	t = lh_kchar_table_new(16, NULL);
+	json_global_set_string_hash(JSON_C_STR_HASH_DFLT);
+	if (!t) { printf("NOMEM"); return; }
+	for (p = sp + 1; p && *p;) {
+		char *comma = strchr(p, ',');
+		unsigned char *b, *dup;
+		unsigned long h0 = 0, h;
+		size_t n;
+		int off, bad = 0;
+		char diff[64] = "";
+		if (comma) *comma = 0;
+		b = unhex(p, &n);
+		for (off = 0; off < 8; off++) {
+			unsigned char *base = NULL;
+			int i;
+			if (posix_memalign((void **)&base, 8, (size_t)off + n + 1) != 0) { bad = 1; break; }
+			for (i = 0; i < off; i++) base[i] = (unsigned char)(0xc3 + 29 * i + (int)n);
+			memcpy(base + off, b, n);
+			base[off + n] = 0;
+			h = t->hash_fn(base + off);
+			if (lh_get_hash(t, base + off) != h) bad = 1;
+			if (off == 0) h0 = h;
+			else if (h != h0) { size_t l = strlen(diff); snprintf(diff + l, sizeof diff - l, "%s%d", l ? "+" : "", off); }
+			(free)(base);
+		}
+		dup = (unsigned char *)(malloc)(n + 1);
+		memcpy(dup, b, n); dup[n] = 0;
+		if (t->hash_fn(dup) != h0) { size_t l = strlen(diff); snprintf(diff + l, sizeof diff - l, "%sdup", l ? "+" : ""); }
+		(free)(dup);
+		(free)(b);
+		if (!first) putchar(',');
+		first = 0;
+		if (bad) printf("bad");
+		else if (diff[0]) printf("diff:%s", diff);
+		else printf("ok");
+		p = comma ? comma + 1 : NULL;
+	}
+	lh_table_free(t);
+}
+
 void run_case(char *rest)
 {
 	alarm(4);           /* a probe or chain loop that does not terminate ends as a crash */
 	if (rest[0] == 'A' && rest[1] == ' ') mode_a(rest + 2);
 	else if (rest[0] == 'B' && rest[1] == ' ') mode_b(rest + 2);
 	else if (rest[0] == 'L' && rest[1] == ' ') mode_l(rest + 2);
+	else if (rest[0] == 'H' && rest[1] == ' ') mode_hh(rest + 2);
 	else printf("BADLINE");
 	alarm(0);
 }
